@@ -227,6 +227,11 @@ func (b *BitMatrix) Rotate180() {
 				b.bits[offset+j] = curbits >> uint(32-shift)
 			}
 		}
+	} else {
+		// rows are whole words: mirror the bits inside each word
+		for i := range b.bits {
+			b.bits[i] = bits.Reverse32(b.bits[i])
+		}
 	}
 }
 
